@@ -146,6 +146,11 @@ func main() {
 				dset = entities.NewSet(false)
 			}
 			if err := lib.FillDataSet(dset, tid, elems, recs, r); err != nil {
+				if target > 65535 {
+					// a record that cannot fit any message may just as well be refused when it is added
+					c.Add("oversize_refused_when_added", 1)
+					return
+				}
 				c.Violation(k, "dataset-error", err.Error(), desc)
 				return
 			}
